@@ -22,6 +22,8 @@
 (*   FlippedPSFAdjoint   2-D adjoint = padded convolution with flipped PSF *)
 (*   GradientOmitsGeometryDerivative, SamplesItemsAsFunvals,               *)
 (*   ArrayFlagIgnored, RenameMutatesOriginal      (C12, non-vacuity)       *)
+(*   SamplesFunItemsAsParameters  columns of a Samples of function values  *)
+(*                        are converted with par2fun again (Model._apply_func) *)
 (* The deciding configurations have Dev = {}; each *.deviation.cfg switches *)
 (* one deviation on and TLC must answer with a counterexample.             *)
 (*                                                                         *)
@@ -356,8 +358,10 @@ C12Eval(k, which) ==
               [] rep = "arr_par" -> P2FV(dg, v)                       \* CUQIarray(v, is_par=TRUE).funvals
               [] rep = "arr_fun" -> IF "ArrayFlagIgnored" \in Dev THEN RePF(dg, P2FV(dg, v)) ELSE P2FV(dg, v)
               [] rep = "samples" -> IF "SamplesItemsAsFunvals" \in Dev THEN (IF pd = dg.n THEN v ELSE IllTyped) ELSE P2FV(dg, v)
+              \* a sample collection of FUNCTION values (is_par = FALSE): its columns G v are used as they are
+              [] rep = "samples_fun" -> IF "SamplesFunItemsAsParameters" \in Dev THEN RePF(dg, P2FV(dg, v)) ELSE P2FV(dg, v)
         ApplyRep(rep, v) == LET u == ToFun(rep, v) IN IF u = IllTyped THEN IllTyped ELSE F2PV(rg, FV(u))
-        Reps == {"par_nd", "fun_nd", "arr_par", "arr_fun", "samples"}
+        Reps == {"par_nd", "fun_nd", "arr_par", "arr_fun", "samples", "samples_fun"}
         vs == << VR(IVecA(pd, k.fi)), VR(IVecB(pd, k.fi)), VR(IVecA(pd, k.fi + 3)) >>
         pOneOutput == \A i \in 1..3 : \A rep \in Reps : ApplyRep(rep, vs[i]) = Apply(vs[i])
         \* --- gradient ------------------------------------------------------------------------
